@@ -204,7 +204,20 @@ def cartan_domain(C, M, diagonalize):
     if not diagonalize:
         return True, "", scale, None
     if float(np.max(np.abs(C - C.T))) > 1e-12:
-        return False, "diagonalize=True with a non-symmetric Cartan matrix", 1.0, None
+        # the result is a conjugate of a valid Cartan representation by whatever
+        # symmetric matrix the implementation reads off C (a triangle of it, or its
+        # symmetric part): the relations are judged (conjugation-invariant), the
+        # preserved form is not.  Seeded change C08-r5-2: the reflections
+        # themselves built from the symmetrised matrix.
+        worst = float("inf")
+        H = C / 2.0
+        for S in (np.tril(H) + np.tril(H, -1).T, np.triu(H) + np.triu(H, 1).T, (H + H.T) / 2.0):
+            sgS = ct.signature(S, margin=EIG_MARGIN)
+            if sgS is None or sgS[2] != 0:
+                return False, "diagonalize=True, non-symmetric Cartan matrix with a (nearly) degenerate symmetric reading", 1.0, None
+            ev = np.linalg.eigvalsh(S)
+            worst = min(worst, sgS[3] / max(1.0, float(np.max(np.abs(ev)))))
+        return True, "", scale / worst, None
     sg = ct.signature(C / 2.0, margin=EIG_MARGIN)
     if sg is None:
         return False, "diagonalize=True with a nearly degenerate form (eigenvalue in (1e-11, 1e-6))", 1.0, None
@@ -281,7 +294,7 @@ def setup(run):
                             "names: %s: %s" % (type(e).__name__, e), case)
         what = "cartan_representation" + ("(diagonalize)" if dg else "")
         check_generators(run, gens, M, what, tolscale, case)
-        if dg:
+        if dg and sg is not None:
             fp = run.monitor("form-preserved")
             r = min(form_residual(gens, S) for S in sign_forms(sg))
             fp.judge(r, TOL * tolscale, "form-preserved/%s/%s" % (what, input_class(M)),
@@ -738,11 +751,20 @@ def study_group(run, rng, M, route, sample=False):
     run.current_case = case
 
     # a standard subgroup is a third way to construct a Coxeter group
-    if n >= 3 and rng.random() < 0.4:
-        keep = sorted(int(k) for k in rng.choice(n, size=n - 1, replace=False))
-        sub = G.standard_subgroup([names[k] for k in keep])
+    if n >= 3 and rng.random() < 0.5:
+        # any subset of at least two generators, listed in parent order, in a
+        # shuffled order or handed over as a set: the subgroup's labels are the
+        # parent's labels BY NAME (seeded change C08-r5-3: the Coxeter-matrix block
+        # taken over sorted indices but labelled in the caller's order)
+        size = int(rng.integers(2, n + 1))
+        keep = [int(k) for k in rng.choice(n, size=size, replace=False)]
+        order_kind = ["parent-order", "shuffled", "shuffled", "set"][int(rng.integers(0, 4))]
+        if order_kind == "parent-order":
+            keep = sorted(keep)
+        arg = [names[k] for k in keep]
+        sub = G.standard_subgroup(set(arg) if order_kind == "set" else arg)
         subnames = list(sub.ordered_gens)
-        scase = dict(case, standard_subgroup=[names[k] for k in keep])
+        scase = dict(case, standard_subgroup=[names[k] for k in keep], order=order_kind)
         run.current_case = scase
         if sorted(subnames) != sorted(names[k] for k in keep):
             run.monitor("relation-words").fail(
@@ -757,7 +779,7 @@ def study_group(run, rng, M, route, sample=False):
                     "standard_subgroup(%r).coxeter_matrix is %r, the parent's labels give %r"
                     % (subnames, np.asarray(sub.coxeter_matrix).tolist(), Ms), scase)
             else:
-                run.note_class(*sig, "standard-subgroup")
+                run.note_class(*sig, "standard-subgroup", order_kind, len(keep))
                 sub.canonical_representation()              # P hooks
                 relation_words(run, sub.geometric_representation(), Ms, subnames,
                                "geometric_representation", 4.0, scase, rng)
@@ -777,6 +799,11 @@ def study_group(run, rng, M, route, sample=False):
     ccase = dict(case, cartan_matrix=C, rename_generators=rename, generator_style=style)
     run.current_case = ccase
     crep = G.cartan_representation(C, rename_generators=rename, generator_style=style)
+    if rng.random() < 0.5:
+        run.current_case = dict(ccase, diagonalize=True)
+        G.cartan_representation(C.copy(), diagonalize=True)         # P hooks (relations only)
+        run.note_class(*sig, "cartan-nonsymmetric-diagonalised")
+        run.current_case = ccase
     cnames = ([ALPHA[i] if style == "alpha" else "s%d" % i for i in range(n)]
               if rename else names)
     run.note_class(*sig, "cartan-nonsymmetric", "renamed-" + style if rename else "own-names")
